@@ -692,7 +692,7 @@ func genUint(t *rapid.T) uint64 {
 func genStr(t *rapid.T, text bool) []byte {
 	l := rapid.IntRange(0, 5).Draw(t, "slen")
 	if rapid.IntRange(0, 3).Draw(t, "slong") == 0 {
-		l = rapid.SampledFrom([]int{22, 23, 24, 25, 254, 255, 256, 257}).Draw(t, "slenclass")
+		l = rapid.SampledFrom([]int{22, 23, 24, 25, 254, 255, 256, 257, 63, 64, 65, 127, 128, 129, 511, 512, 513}).Draw(t, "slenclass")
 	}
 	b := make([]byte, l)
 	for i := range b {
@@ -932,7 +932,7 @@ func genNode(t *rapid.T, depth, maxDepth int) *Node {
 	str := func(text bool) []byte {
 		l := rapid.IntRange(0, 4).Draw(t, "slen")
 		if rapid.IntRange(0, 4).Draw(t, "slong") == 0 {
-			l = rapid.SampledFrom([]int{23, 24, 255, 256}).Draw(t, "slenclass")
+			l = rapid.SampledFrom([]int{23, 24, 255, 256, 63, 64, 65, 127, 128, 129}).Draw(t, "slenclass")
 		}
 		b := make([]byte, l)
 		for i := range b {
